@@ -642,6 +642,13 @@ func (f *fgen) numOp(t wenc.ValType, d int) bool {
 		return true
 	}
 	for _, in := range op.In {
+		// one operand in six comes straight from a load, whatever the depth: back ends fold a single-use load into
+		// the memory form of the consuming instruction, which is not always the same instruction (widths, merging
+		// vs zeroing of the untouched part of a register)
+		if r.Chance(1, 6) && f.load(in, 1) {
+			f.g.use("operand-straight-from-load")
+			continue
+		}
 		f.expr(in, d-1)
 	}
 	f.c.Raw(op.Enc)
@@ -1077,7 +1084,7 @@ func (f *fgen) stmt() (terminated bool) {
 	r := f.r
 	d := f.g.cfg.Depth
 	c := f.c
-	k := r.Intn(39)
+	k := r.Intn(40)
 	if f.g.cfg.CallHeavy && r.Chance(1, 3) {
 		k = 9
 	}
@@ -1587,6 +1594,27 @@ func (f *fgen) stmt() (terminated bool) {
 				}
 			}
 			f.g.use("address-local-reuse")
+		}
+	case k == 39: // a lane of a v128 local written straight from a load (memory forms of the lane-insert instructions)
+		vl := f.localsOf(v128)
+		if f.g.cfg.SIMD && len(vl) > 0 && f.g.memBytes > 0 {
+			v := vl[r.Intn(len(vl))]
+			shapes := []struct {
+				sub   uint32
+				lanes int
+				load  byte
+				w     uint32
+			}{{0x17, 16, 0x2d, 1}, {0x1a, 8, 0x2f, 2}, {0x1c, 4, 0x28, 4}, {0x1e, 2, 0x29, 8}, {0x20, 4, 0x2a, 4}, {0x22, 2, 0x2b, 8}}
+			s := shapes[r.Intn(len(shapes))]
+			off := uint32(r.Intn(64))
+			c.LocalGet(v)
+			f.addr(d, s.w, off, 1)
+			c.Op(s.load).U32(0).U32(off)
+			c.Op(0xfd).U32(s.sub).Op(byte(r.Intn(s.lanes)))
+			c.LocalSet(v)
+			f.g.use("lane-from-load")
+		} else {
+			f.store(d)
 		}
 	default:
 		f.store(d)
